@@ -195,6 +195,8 @@ func genQRCase(t *rapid.T) QRCase {
 		case 1: // sign characters at a 3-digit chunk start (strconv-style parsers accept them)
 			p := rapid.IntRange(0, (len(content)-1)/3).Draw(t, "chunk") * 3
 			content[p] = rapid.SampledFrom([]byte{'+', '-'}).Draw(t, "sign")
+		case 3: // any position, any byte value
+			content[rapid.IntRange(0, len(content)-1).Draw(t, "anypos")] = rapid.Byte().Draw(t, "anybyte")
 		case 2: // any position, any of the hostile characters
 			p := rapid.IntRange(0, len(content)-1).Draw(t, "pos")
 			content[p] = rapid.SampledFrom([]byte{'+', '-', '_', ' ', 'x', 'e', '.', 0xFF, 0x80, '*', 'a'}).Draw(t, "hostile")
@@ -254,6 +256,7 @@ func qrDecodeChecked(t TB, prop, check string, c QRCase) (*ref.QRResult, bool) {
 		failf(t, prop, check, c, "%v", merr)
 	}
 	res, derr := ref.DecodeQR(m)
+	colourVariant(t, prop, check, c, EncSpec{Fam: "qr", Content: c.Content, A: c.Level, B: c.Mode}, m)
 	if derr != nil {
 		failf(t, prop, check, c, "reference reader: %v", derr)
 	}
